@@ -307,6 +307,7 @@ def rv(v):
     if isinstance(v, float):
         # FLOAT_AS_DECIMAL: read a float as its shortest decimal literal (26.81 -> 2681/100), i.e. the constant the
         # source text states, instead of the exact value of the nearest double (closed-form checks over the reals)
+        v = float.__float__(v) if type(v) is not float else v      # np.float64 is a float subclass with another repr
         f = Fraction(repr(v)) if FLOAT_AS_DECIMAL else Fraction(v)
         return z3.RealVal(f.numerator) / z3.RealVal(f.denominator) if f.denominator != 1 else z3.RealVal(f.numerator)
     if isinstance(v, Fraction):
